@@ -184,6 +184,9 @@ func validateStreams(env *Environment, errorSink *validation.ErrorSink) *Environ
 			self.VisitChildren(node, node)
 		case *ProtocolStep:
 			self.VisitChildren(node, node)
+		case *SimpleType:
+			// type arguments are not at the top level of a step
+			self.VisitChildren(node, node)
 		case *GeneralizedType:
 			if stream, isStream := t.Dimensionality.(*Stream); isStream {
 				if _, isStep := (context).(*ProtocolStep); !isStep {
